@@ -618,6 +618,19 @@ program_t *load_binary (const char *name) {
     }
   for (iname = buf; iname < buf + len; iname += strlen (iname) + 1)
     {
+      if (iname[0] == '/')
+        {
+          /* a place where an #include looked for its file first, in vain: the
+           * source includes another file now if there is one */
+          if (check_times (mtime, iname + 1) != -1)
+            {
+              opt_trace (TT_COMPILE|3, "out of date (include file %s has appeared).", iname + 1);
+              fclose (f);
+              FREE (buf);
+              return OUT_OF_DATE;
+            }
+          continue;
+        }
       if (check_times (mtime, iname) <= 0)
         {
           opt_trace (TT_COMPILE|3, "out of date (include file is newer).");
